@@ -333,8 +333,18 @@ func c16Table(r *mon.Run) {
 			if your == 0 {
 				n += "/your0"
 			}
-			alphabet = append(alphabet, sym{n, bfdref.Packet{Version: 1, State: st, DetectMult: 3, MyDisc: 77,
-				YourDisc: your, DesiredMinTx: 30_000_000, RequiredMinRx: 30_000_000}})
+			// Timer parameters: either ordinary, or such that multiplier x interval
+			// exceeds 2^32 microseconds (about 71.6 minutes). In both cases no timer can
+			// fire during a script, so the reference semantics are the same.
+			mult, tx := uint8(3), uint32(30_000_000)
+			if your == disc {
+				mult, tx = 128, 33_554_432
+				if st == bfdref.Up {
+					mult, tx = 255, 16_843_010
+				}
+			}
+			alphabet = append(alphabet, sym{n, bfdref.Packet{Version: 1, State: st, DetectMult: mult, MyDisc: 77,
+				YourDisc: your, DesiredMinTx: tx, RequiredMinRx: 30_000_000}})
 		}
 	}
 	maxLen := r.Pick(4, 5)
